@@ -11,6 +11,7 @@ import (
 	"sort"
 	"strconv"
 	"strings"
+	"sync"
 )
 
 // Out writes the operation stream (ops.txt = the replay) and the implementation's answers
@@ -22,6 +23,7 @@ type Out struct {
 	Stats     map[string]int
 	Samples   []string
 	dir       string
+	mu        sync.Mutex // Line, Count and Add may be called from several goroutines
 }
 
 func NewOut(dir string) *Out {
@@ -35,6 +37,8 @@ func NewOut(dir string) *Out {
 
 // Line records one operation and the implementation's answer to it.
 func (o *Out) Line(op, ans string) {
+	o.mu.Lock()
+	defer o.mu.Unlock()
 	if strings.ContainsAny(op, "\n\r") || strings.ContainsAny(ans, "\n\r") {
 		panic("newline in protocol line")
 	}
@@ -52,7 +56,13 @@ func (o *Out) Line(op, ans string) {
 	}
 }
 
-func (o *Out) Count(k string) { o.Stats[k]++ }
+func (o *Out) Count(k string) { o.Add(k, 1) }
+
+func (o *Out) Add(k string, n int) {
+	o.mu.Lock()
+	o.Stats[k] += n
+	o.mu.Unlock()
+}
 
 func (o *Out) Close() {
 	must(o.ops.Flush())
